@@ -90,6 +90,13 @@ func parseRaceReports(text string) (out [][2]RaceAccess) {
 			if len(a.Stack) > 0 {
 				a.Site = a.Stack[0]
 			}
+			// An access made by the scrape machinery itself (client_golang turning the metrics that the
+			// exporter's Collect produced into the exposition format) works on objects the exporter
+			// created and handed over: it is the exporter's counterpart whoever called Gather.
+			if inner := firstNonRuntime(a.Stack); strings.HasPrefix(inner, "github.com/prometheus/client_golang/") {
+				a.Owner, a.Site = "consumer", inner
+				continue
+			}
 			for _, fn := range a.Stack {
 				if strings.HasPrefix(fn, "verif/") {
 					a.Owner, a.Site = "harness", fn
@@ -106,6 +113,16 @@ func parseRaceReports(text string) (out [][2]RaceAccess) {
 	return out
 }
 
+//go:norace
+func firstNonRuntime(stack []string) string {
+	for _, fn := range stack {
+		if !strings.HasPrefix(fn, "runtime.") && !strings.HasPrefix(fn, "internal/") && !strings.HasPrefix(fn, "sync/atomic.") {
+			return fn
+		}
+	}
+	return ""
+}
+
 // shortFn strips the module prefix and the numbering of function literals.
 //
 //go:norace
@@ -116,8 +133,9 @@ func shortFn(fn string) string {
 
 // judgeRaces turns the reports that belong to this run into violations of the given properties. A
 // report counts when the innermost frame that is not runtime or library code belongs to the code
-// under test on both sides; a side that belongs to harness code (a stub called back by the SDK, say)
-// is the harness's own business and only counted.
+// under test on both sides, or on one side while the other access is made by client_golang on objects
+// the exporter handed to it; a side that belongs to harness code (a stub called back by the SDK, say) is
+// the harness's own business and only counted.
 //
 //go:norace
 func (r *Run) judgeRaces(props []string) {
@@ -134,7 +152,8 @@ func (r *Run) judgeRaces(props []string) {
 	text := string(b[raceLogOff:])
 	for _, rep := range parseRaceReports(text) {
 		a, b := rep[0], rep[1]
-		if a.Owner != "sut" || b.Owner != "sut" {
+		// (sut + consumer: e.g. a map handed to client_golang and written again while the registry reads it)
+		if !(a.Owner == "sut" && (b.Owner == "sut" || b.Owner == "consumer") || b.Owner == "sut" && a.Owner == "consumer") {
 			r.Probe("race-report-not-in-sdk/" + a.Owner + "+" + b.Owner)
 			if r.Res.Extra == nil {
 				r.Res.Extra = map[string]string{}
